@@ -178,6 +178,8 @@ def m_len(E, a, kw):
         return VInt(v.n)
     if isinstance(v, VTuple):
         return VInt(len(v.items))
+    if v is NONE or isinstance(v, (VInt, VBool)):
+        _raise(E, TypeError, 'object has no len()')
     raise Unsupported('len(%r)' % (v,))
 
 
